@@ -776,6 +776,8 @@ class AnimalSpecies:
 
         NE_required = self.NE_balance.kcals
         if NE_required == 0:
+            # nothing is owed: the whole (possibly empty) herd counts as fed
+            self.population_fed = self.current_population
             return grass_input, feed_input
 
         # Calculate NE from grass, if ruminant, else 0
@@ -807,9 +809,12 @@ class AnimalSpecies:
                 # If feed is also not enough, feed as much as possible
                 feed_input.kcals = 0
                 NE_provided = NE_from_grass + NE_from_feed
+                # fraction of the month's requirement that was delivered (not of what is still owed)
+                fraction_fed = NE_provided / self.NE_balance.kcals
                 self.NE_balance.kcals -= NE_provided
-                self.population_fed = round(
-                    (NE_provided / self.NE_balance.kcals) * self.current_population
+                self.population_fed = min(
+                    round(fraction_fed * self.current_population),
+                    self.current_population,
                 )
 
         return grass_input, feed_input
